@@ -64,6 +64,10 @@ def puppet_scenario(sc):
     if sc.get("retry_companion"):
         # sorts before "subject" in the same binary; fails at once, then sits in its retry delay
         tests["a_retry"] = {"attempts": [{"sleep": 0, "exit": 1}, {"sleep": 0, "exit": 0}]}
+    if sc.get("cancel_at") is not None:
+        # a second test that fails `cancel_at` units after the start: with fail-fast the run is cancelled (no
+        # signal involved) while the subject is wherever the scenario has put it by then
+        tests["a_fail"] = {"attempts": [{"sleep": sc["cancel_at"] * u, "exit": 1}]}
     bins = {"alpha::t1": {"tests": tests}}
     if sc.get("bystander"):
         bins["beta::t1"] = {"tests": {"bystander": {"attempts": [
@@ -129,6 +133,10 @@ def coq_case(sc, cont_first=True):
         else:
             r = "RGetInfo"
         reqs.append(f"({ms(t, u)}, {r})")
+    if sc.get("cancel_at") is not None:
+        # the dispatcher broadcasts OtherCancel when the companion's failure trips fail-fast
+        reqs.append(f"({ms(sc['cancel_at'], u)}, ROtherCancel)")
+        reqs.sort(key=lambda x: int(x[1:].split(",")[0]))
     return f"sim_report_o {vlib.coq_bool(cont_first)} pause_table {cfg} {beh} {vlib.coq_list(reqs)}"
 
 
@@ -176,7 +184,8 @@ def run_real(rig, sc, timeout=40):
 
     sigs = [(mk_trigger(t * u), SIGNO[name]) for t, name in sc["sigs"]]
     # --no-tests=pass: a run cancelled before anything finished must still fail (the policy is about an empty selection)
-    args = ["--no-fail-fast", "--test-threads", "4", "--no-tests=pass"]
+    args = ["--fail-fast" if sc.get("cancel_at") is not None else "--no-fail-fast", "--test-threads", "4",
+            "--no-tests=pass"]
     if sc.get("no_capture"):
         args.append("--no-capture")   # tests inherit stdout / stderr; timers, groups and signals as usual
     # direct_spawn: units are spawned without the double-spawn launcher (NEXTEST_DOUBLE_SPAWN=0)
@@ -420,6 +429,15 @@ def oracle_C09(sc, obs):
             return "deadline passed with a non-zero grace period but no SIGTERM reached the test"
         if grace == 0 and term_like:
             return f"grace period is zero but the test received {term_like} instead of SIGKILL"
+    # SIGKILL only when the grace period ends: a test that reacts to SIGTERM by exiting some time later, well
+    # within the grace period, gets to do so (it writes its end record when it exits by itself), whatever else
+    # happens in the run meanwhile
+    ot = sc["on_term"]
+    if deadline is not None and dur > deadline + eps and grace > 0 and isinstance(ot, tuple) \
+            and ot[1] * u < grace - eps and not sc.get("hold") and obs.get("end_how") is None and not stops:
+        return (f"the test exits {ot[1] * u:.0f} ms after SIGTERM, the grace period is {grace:.0f} ms, but it did not get "
+                f"to exit by itself (no end record: it was killed before the grace period ended); "
+                f"result {obs.get('result')}, time taken {obs.get('time_taken')}")
     if obs.get("is_slow") is not None:
         ran = min(dur, (deadline + grace) if deadline else dur)
         if dur > period + eps and not obs["is_slow"]:
